@@ -1,12 +1,27 @@
 /-
 C08 — operators bind as the manual's precedence table says.
 
-What is machine-checked here is limited: the parser model (`Model/Parser.lean`, tied to `parser.rs` by the
-correspondence run on token streams) is evaluated by the kernel on one instance per adjacent pair of levels
-of the manual's table.  These are TESTS of the model, labelled as such; the unbounded statement
-(`parse (printMin t) = t` for every AST) is not proved yet and is carried by the correspondence run.
+Proved for EVERY tree (unbounded), `roundtrip`: take the manual's table as a stratified grammar —
+
+    F ::= number | ( C6 ) | F !                     `!` binds tightest
+    U ::= - U | F | F ^ U                           `^` right-associative, above unary minus, which may start an exponent
+    M ::= U | M (* | / | mod) U                     left-associative
+    A ::= M | A (+ | -) M                           left-associative
+    C1 ::= A | C1 (<< | >>) A     C2 ::= C1 | C2 & C1     C3 ::= C2 | C3 xor C2
+    C4 ::= C3 | C4 `|` C3         C5 ::= C4 | C5 nCr C4   C6 ::= C5 | C6 nPr C5
+
+— then for every tree of this grammar (parentheses only where the grammar says `( C6 )`, nested to any depth) the parser
+model, started at the statement level with enough fuel, returns exactly that tree and consumes all input.  Every operator
+expression over number literals written without redundant parentheses IS such a tree, so this is "an expression with no
+redundant parentheses evaluates as its fully parenthesised form" at the level of parse trees, and `parens_transparent` is the
+statement about adding parentheses.  The six ladder levels share one generic induction (`leftLoop`).
+
+Not proved (carried by the correspondence run and by the kernel-evaluated instances, which are TESTS of the model):
+number-unit juxtaposition, mixed fractions and implicit sums, `to`, unary `+` and `/`, identifiers and function application,
+and the levels `== != = ;` above the ladder when their operands are not ladder trees.  Fuel: the theorem says "for all
+sufficiently large fuel"; that `parse`'s own budget `64·(n+2)` is sufficient is checked by the correspondence run, not proved.
 -/
-import FendModel.Model.Parser
+import FendModel.Proofs.ParserArith
 
 namespace Fend.C08
 open Fend.Parser
@@ -46,5 +61,63 @@ theorem top_ladder :
 /-- redundant parentheses only add a `Parens` node around the same tree -/
 theorem parens_example : parse [s .openP, n 1, s .add, n 2, s .closeP, s .mul, n 3] = some (.bop .mul (.parens (.bop .plus (N 1) (N 2))) (N 3)) := by
   decide +kernel
+
+/-! ### the unbounded theorem -/
+
+/-- a number literal as an operand of the ladder -/
+def num (n : String) : Chain 0 := .base (.num n) [.num n] ⟨_, _, rfl, Or.inl ⟨n, rfl⟩⟩ (num_base n)
+
+/-- a complete parenthesised tree as an operand of the ladder -/
+def paren (c : Chain 6) : Chain 0 :=
+  .base (.parens c.toExpr) (.sym .openP :: (c.toToks ++ [.sym .closeP])) ⟨_, _, rfl, Or.inr (Or.inl rfl)⟩ (paren_base c)
+
+/-- F ::= number -/
+def fNum (n : String) : FTree :=
+  .atom (.num n) (.num n) [] ⟨Or.inl ⟨n, rfl⟩, rfl, 1, fun fuel hf rest => by
+    obtain ⟨f, rfl⟩ : ∃ f, fuel = f + 1 := ⟨fuel - 1, by omega⟩
+    simp [run]⟩
+
+/-- F ::= ( C6 ) -/
+def fParen (c : Chain 6) : FTree :=
+  .atom (.parens c.toExpr) (.sym .openP) (c.toToks ++ [.sym .closeP]) ⟨Or.inr rfl, rfl, paren_atom c⟩
+
+/-- C0 ::= A : a sum of products of powers is an operand of the ladder -/
+def ofSum (a : ATree) : Chain 0 := .base a.toExpr a.toToks (atree_starts a) (atree_base a)
+
+/-- **operators bind as the table says, for every tree of the stratified grammar** (built with `fNum`, `fParen`, `FTree.fact`,
+`UTree.*`, `MTree.*`, `ATree.*`, `ofSum`, `Chain.up`, `Chain.snoc`): with enough fuel, parsing its text from the statement
+level yields exactly the tree and consumes all input -/
+theorem roundtrip (c : Chain 6) : ∃ F, ∀ fuel, F ≤ fuel → run fuel .statements c.toToks = some (c.toExpr, []) := by
+  obtain ⟨F, hF⟩ := statements_of_chain c
+  exact ⟨F, fun fuel hf => by simpa using hF fuel hf [] (Or.inl rfl)⟩
+
+/-- adding parentheses around a sub-tree the table already groups only inserts a `Parens` node around the same tree -/
+theorem parens_transparent (c : Chain 6) :
+    ∃ F, ∀ fuel, F ≤ fuel → run fuel .statements (.sym .openP :: (c.toToks ++ [.sym .closeP])) = some (.parens c.toExpr, []) := by
+  have := roundtrip (.up (.up (.up (.up (.up (.up (paren c)))))))
+  simpa [Chain.toToks, Chain.toExpr, paren] using this
+
+-- non-vacuity: `1 << 2 & 3 | (4 nCr 5 nCr 6) nPr 7` is such a chain; its tree is ((((1<<2)&3)|((4 nCr 5) nCr 6)) nPr 7
+private def ex : Chain 6 :=
+  .snoc (.up (.up (.snoc (.up (.up (.snoc (.up (.snoc (.up (num "1")) .shl .shl (by simp [opsLv]) (num "2"))) .bitAnd .bitAnd (by simp [opsLv])
+    (.up (num "3"))))) .bitOr .bitOr (by simp [opsLv])
+    (.up (.up (.up (paren (.up (.snoc (.snoc (.up (.up (.up (.up (.up (num "4")))))) .comb .comb (by simp [opsLv]) (.up (.up (.up (.up (num "5"))))))
+      .comb .comb (by simp [opsLv]) (.up (.up (.up (.up (num "6"))))))))))))))
+    .perm .perm (by simp [opsLv]) (.up (.up (.up (.up (.up (num "7"))))))
+
+example : ex.toExpr = .bop .perm (.bop .bitOr (.bop .bitAnd (.bop .shl (.num "1") (.num "2")) (.num "3"))
+    (.parens (.bop .comb (.bop .comb (.num "4") (.num "5")) (.num "6")))) (.num "7") := rfl
+
+-- non-vacuity with the arithmetic levels: `-2^3! * (1 + 2) - 4 << 5` is ((((-(2^(3!))) * ((1+2))) - 4) << 5)
+private def ex2 : Chain 6 :=
+  .up (.up (.up (.up (.up (.snoc (.up (ofSum
+    (.snoc (.one (.snoc (.one (.neg (.pow (fNum "2") (.plain (.fact (fNum "3")))))) .mul .mul (by simp [mulOps])
+      (.plain (fParen (.up (.up (.up (.up (.up (.up (ofSum (.snoc (.one (.one (.plain (fNum "1")))) .add .plus (by simp [addOps]) (.one (.plain (fNum "2")))))))))))))))
+      .sub .minus (by simp [addOps]) (.one (.plain (fNum "4"))))))
+    .shl .shl (by simp [opsLv]) (ofSum (.one (.one (.plain (fNum "5"))))))))))
+
+example : ex2.toExpr = .bop .shl (.bop .minus (.bop .mul (.neg (.bop .pow (.num "2") (.fact (.num "3")))) (.parens (.bop .plus (.num "1") (.num "2")))) (.num "4")) (.num "5") := rfl
+example : ex2.toToks = [.sym .sub, .num "2", .sym .pow, .num "3", .sym .fact, .sym .mul, .sym .openP, .num "1", .sym .add, .num "2", .sym .closeP,
+    .sym .sub, .num "4", .sym .shl, .num "5"] := rfl
 
 end Fend.C08
